@@ -128,6 +128,14 @@ def _value_case(draw, gen: int):
     for tt in cmdrun.TIMERS:
         calls.append(["timer_time", n, tt, draw(st.integers(0, 23)), draw(st.integers(0, 59))])
         calls.append(["timer_clear", n, tt])
+    # any interleaving of the three timer calls on both timers: whatever was called before, the other timer goes out
+    # exactly as the console last reported it
+    timer_call = st.one_of(
+        st.tuples(st.sampled_from(cmdrun.TIMERS), st.integers(0, 1500), st.sampled_from([0, 0, 30_000, 59_999])).map(
+            lambda t: ["quick_duration", n, *t]),
+        st.tuples(st.sampled_from(cmdrun.TIMERS), st.integers(0, 23), st.integers(0, 59)).map(lambda t: ["timer_time", n, *t]),
+        st.sampled_from(cmdrun.TIMERS).map(lambda tt: ["timer_clear", n, tt]))
+    calls += draw(st.lists(timer_call, min_size=3, max_size=8))
     if zs:
         z = draw(st.sampled_from(zs))
         calls += [["zone_damper", z, p] for p in range(-5, 106)]
@@ -141,8 +149,7 @@ def _value_case(draw, gen: int):
         calls.append(["push_ac", draw(con.ac_state_strategy(gen, n))])
         calls.append(["push_timer", n, draw(con.timer_strategy)])
         calls += [["ac_temp", n, t] for t in temps[:6]]
-        calls.append(["timer_time", n, draw(st.sampled_from(cmdrun.TIMERS)), draw(st.integers(0, 23)), draw(st.integers(0, 59))])
-        calls.append(["timer_clear", n, draw(st.sampled_from(cmdrun.TIMERS))])
+        calls += draw(st.lists(timer_call, min_size=2, max_size=5))
     return {"mode": "values", "inst": inst, "state": state, "calls": calls}
 
 
